@@ -24,6 +24,13 @@ CHECKS['C20'] = dict(
     note='Trusted: CrossHair+z3, the LazyDict stand-in for the three dicts (part of the claim), the reference model written from the statement. Outside: keys outside the universe (code is uniform in the key), thread-safety, --config-file at import.',
     technique='inductive-step symbolic execution (CrossHair/z3) against a reference model',
     design='3/C20')
+CHECKS['C13'] = dict(
+    category='other',
+    text='Bounded symbolic execution (CrossHair/z3) of the real AdbMessage/RawAdbMessage/AdbTransportAdapter: wire layout and read-back for every command, all 32-bit arguments and payloads up to the bound; '
+         'rejection decided as an iff over ARBITRARY six header words and an arbitrary payload (delivered exactly when command known, length and byte-sum agree); short/empty headers; payload written after an expired timeout.',
+    note='Trusted: CrossHair+z3; SymStruct stand-in for struct (validated against struct each run); EqDict look-up stub; scripted transport. Outside: payloads longer than the bound; writer/reader interleavings unless the E3 condition is listed in evidence.',
+    technique='symbolic execution (CrossHair/z3) of real framing code over symbolic header words and payload',
+    design='3/C13')
 NA_REASON = {}
 DEFAULT_NA = 'check not built yet in this round (work in progress; see DESIGN.md section 6 for the plan)'
 
